@@ -36,6 +36,54 @@ CHECKS = {
          "A session with 1-4 outstanding requests in separate tasks; the hello or one reply is replaced by a mutation of the valid message (16 mutation kinds incl. truncation at any offset, splices, byte flips, invalid UTF-8, huge numbers, 64 KiB / 4 MiB text, deep nesting, random bytes). Oracle: no panic, quiescence within the step budget, every other request still resolves to its own reply (at most one innocent reader may err), no poll hangs (watchdog). The same mutations are fed to the agent's two configuration readers.",
          "Mutations that name another outstanding message-id are skipped. A non-returning poll is caught by a 20 s real-time watchdog (class spin).",
          "deterministic simulation: mutated server bytes with other requests outstanding, seeded delivery order"),
+ "C01": ("A-sim", "exploration", "DESIGN.md §5 C01",
+         "Histories of 1-6 consecutive runs of the real agent (Updater::run) against FakeJunos + FakeIrrd on a paused tokio clock, the world mutating between runs (IRR data, annotations, activation, names, expressions). After every successful run: committed accept-set per family == reference evaluation, final reject, no stale policy, read-back of the committed state through the agent's own reader; finally one more run with unchanged inputs must succeed and change nothing.",
+         "Trusted: FakeJunos's merge/delete semantics and get-config dialect (assumptions listed in evidence), the reference evaluator (rpsl + generic-ip over the database), the harness XML parser.",
+         "deterministic simulation: run histories against router and IRR models, virtual time, seeded delays and hash order"),
+ "C02": ("A-sim", "exploration", "DESIGN.md §5 C02",
+         "The C01 histories with NETCONF faults at seeded request positions, so that runs abort after any prefix of the update sequence; the oracle runs on the model's working copy after every single applied load-configuration (accepting terms restricted to one family, with explicit route-filters all inside the evaluated set, final reject), on the element paths of every payload and on the set of operations and the ephemeral instance used.",
+         "Same trusted base as C01.",
+         "deterministic simulation: per-load invariant on the router model under injected aborts"),
+ "C03": ("A-sim", "fault_enumeration", "DESIGN.md §5 C03",
+         "Histories biased towards unobtainable prefix data: unknown as-set, IRR error responses (F/E/D) to the members query, IRRd refusing the connection, unparseable bgpfu-fltr annotations, with the policy installed or not. Oracle: no update or delete names such a policy, its installed state is unchanged, deletes only name policies that are not marked as managed. All violations of a run are collected so that the known finding does not hide another.",
+         "Same trusted base as C01; unknown route-/filter-sets are defined by bgpfu-lib as empty sets and are not faults.",
+         "deterministic simulation: IRR fault kinds x candidate/installed combinations through the real agent"),
+ "C04": ("A-sim", "fault_enumeration", "DESIGN.md §5 C04",
+         "1-2 faults at seeded positions of open -> get-config x2 -> load x N -> commit -> close-configuration -> close-session, 11 fault kinds (rpc-error, error in load results with/without <ok/>, malformed, truncated, unknown id, another outstanding id, duplicate, close before/after the reply, warning+ok as a non-fault), with reply delays so that a failing load reply arrives after later loads were sent. Oracle on the server's per-session request log and delivery flags.",
+         "The fake server's classification of its own replies (positive / negative / garbage) is the reference for 'acknowledged'.",
+         "deterministic simulation: fault position x fault kind injection against a recording server, virtual delays"),
+ "C06": ("R-sim", "fault_enumeration", "DESIGN.md §5 C06",
+         "Real TLS, SSH and local-CLI transports against a scripted peer on one paused-clock runtime; one chunk = one TLS record / SSH CHANNEL_DATA / pipe write, delivered in lock-step. Enumerated per transport: every single cut within 8 bytes of each delimiter, every pair of cuts inside a delimiter, all groupings of 2-3 replies, one-byte chunks, 41 reply sizes around the receive-buffer boundaries; plus seeded cut sets. Oracle: each request resolves to its own reply within 100 virtual ms of its delimiter's last byte.",
+         "Relies on synchronous loopback/pipe delivery (Nagle disabled on the client socket by the harness); guarded by the standing re-execution check. Absolute virtual instants are kept out of the event log.",
+         "deterministic simulation: segmentation enumeration over real transports, scripted peer, paused clock"),
+ "C07": ("R-sim", "fault_enumeration", "DESIGN.md §5 C07",
+         "Enumerated (close point x outstanding requests x close kind) per transport - TLS close_notify+FIN / FIN / RST, SSH channel EOF / close / EOF+close / TCP FIN / TCP RST, local EOF / child killed - plus seeded variants. Oracle: establishment, every pending request and one further request fail within 5 virtual seconds; a client that stops making virtual-time progress (spin inside a poll, or endless re-polling that freezes the paused clock) is caught by the worker watchdog and reported as class spin/<transport>/<close kind>.",
+         "The spin watchdog reads a real clock (8 s).",
+         "deterministic simulation: disconnect injection at every session phase over real transports, spin watchdog"),
+ "C11": ("I-sim", "exploration", "DESIGN.md §5 C11",
+         "The real RpslEvaluator over the vendored irrc pipeline whose socket is an in-memory stream with seeded short reads and partial writes, against FakeIrrd over a generated database (nested/cyclic/hierarchical as-sets, v4-only/v6-only/routeless ASes, duplicates, nested route-sets, filter-sets; thorough: >1000 pipelined queries). Oracle: equality with rpsl's evaluator over a resolver that reads the database directly.",
+         "rpsl expression semantics and generic-ip set algebra are trusted (both sides). NOT is only generated over ANY and short IPv4 literal sets: generic-ip's complement is exponential in prefix length (seconds for a /24, unbounded for IPv6). The agent half is checked by C01.",
+         "deterministic simulation: IRR protocol model with seeded segmentation, reference evaluation"),
+ "C15": ("A-sim", "exploration", "DESIGN.md §5 C15",
+         "Agent runs over 1-10 managed policies of which some are unevaluable (unknown as-set, IRR error, PeerAS, AS-path regex, community match) in all (seeded) hash orders. Oracle: the run succeeds, evaluable policies reach their reference sets and are committed, unevaluable ones are untouched.",
+         "Same trusted base as C01.",
+         "deterministic simulation: unevaluable members x evaluation order through the real agent"),
+ "C16": ("A-sim", "exploration", "DESIGN.md §5 C16",
+         "Running configurations from a grammar (annotation present/absent/near-miss/unparseable, decorations, jcmd:active, four attribute orders incl. Junos's duplicate xmlns:jcmd, special characters in names and expressions, five body shapes) through the real candidate reader; oracle: (name, expression) set == an independent selection over the generated description.",
+         "Decided by generated peer output, not by schedule or faults (see DESIGN.md §6): the simulator contributes the router model that renders the documents.",
+         "generated router configurations through the real reader vs independent selection"),
+ "C17": ("I-sim", "exploration", "DESIGN.md §5 C17",
+         "2-10 expressions evaluated in sequence on one evaluator (one pipelined connection) with 0-3 IRR error responses injected at seeded query ordinals, multi-object filter-set responses (partly consumed), seeded read segmentation. Oracle: every evaluation whose own queries were not faulted equals the fresh-connection reference, in particular after a faulted one.",
+         "Same trusted base as C11.",
+         "deterministic simulation: evaluation histories with injected IRR errors on one connection"),
+ "C19": ("A-sim", "exploration", "DESIGN.md §5 C19",
+         "The real Loop::start on a paused clock (periods 1 s .. 1 day), scripted outcomes per connection attempt (success / connect failure / rpc-error or disconnect at a seeded request, job durations 0..3 periods), SIGHUP and SIGINT/SIGTERM raised with libc::raise at seeded virtual instants. Oracle over the timeline of attempts and observed job ends: period after success, 60 s first retry, monotone growth up to max(60 s, period), never zero without SIGHUP, SIGHUP while waiting => run at that instant, terminating signal while waiting => clean exit at that instant.",
+         "Job end is observed at the transport (refusal, first negative reply / EOF, positive close-session reply).",
+         "deterministic simulation: virtual-time timelines with scripted outcomes and real signals"),
+ "C20": ("R-sim", "exploration", "DESIGN.md §5 C20",
+         "Real SSH and TLS session establishment (success, rejected credentials, peer closes) under a capturing tracing subscriber with span new/close events, 8 filter directives, 8 passwords; the captured text of the repository's crates is searched for the secret in clear, Debug-escaped, hex, base64 and byte-list encodings (key: DER, private scalar and its halves, PEM lines).",
+         "The agent binary's start-up path is not executed in-process. Dependency log lines are scanned and reported as observations.",
+         "simulated connection attempts over real transports with full log capture and multi-encoding search"),
 }
 
 def main():
@@ -55,7 +103,8 @@ def main():
             "level_note": note,
             "technique": tech,
         })
-    na = [{"property_id": p["id"], "reason": "check under construction in this session (not yet registered)"} for p in props if p["id"] not in CHECKS]
+    na = [{"property_id": p["id"], "reason": "check under construction (not yet registered)"} for p in props if p["id"] not in CHECKS]
+    checks.sort(key=lambda c: c["property_id"])
     engines = {}
     for pid,(sim,*_) in CHECKS.items():
         engines.setdefault(sim, []).append(pid)
